@@ -136,6 +136,22 @@ HtlcMaxAndCapacity(g, req, r) ==
      LET U == Uses(g, r, k) IN U # {} => SumUses(g, req, r, U) <= Limit(g.edges[k])
 FeesPaid(g, r) == \A a \in 1..Len(r) : \A i \in 1..(Len(r[a]) - 1) :
                     r[a][i].fee >= RequiredFee(g, r[a], i)
+(* Another weaker form, again only to NAME a class of failure (still a violation): the limits
+   hold once, on paths whose last hop carries no more than its htlc_minimum (i.e. may have been
+   raised), each hop is relieved of the excess fee paid on that very hop.  A raise computed on an
+   amount that misses the last hop's raise overshoots the hop's own minimum by at most that excess. *)
+OwnExcess(g, p, i) == IF i < Len(p) THEN Max2(0, p[i].fee - RequiredFee(g, p, i)) ELSE 0
+LastAtMin(g, p) == Carried(p, Len(p)) <= g.edges[HopEdge(g, p, Len(p))].min
+RECURSIVE SumUsesLenient(_, _, _, _)
+SumUsesLenient(g, req, r, U) ==
+  IF U = {} THEN 0
+  ELSE LET u == CHOOSE x \in U : TRUE
+           p == r[u[1]]
+       IN  Unraised(g, req, r, p, u[2]) - (IF LastAtMin(g, p) THEN OwnExcess(g, p, u[2]) ELSE 0)
+             + SumUsesLenient(g, req, r, U \ {u})
+HtlcMaxButForOvershootingRaise(g, req, r) ==
+  \A k \in DOMAIN g.edges :
+     LET U == Uses(g, r, k) IN U # {} => SumUsesLenient(g, req, r, U) <= Limit(g.edges[k])
 (* A weaker form, used only to NAME one class of failure precisely (it is not an excuse: the
    class is still a violation): the fees suffice for the amounts forwarded if the raise made at
    the path's last hop is left out of them.                                                     *)
@@ -166,7 +182,10 @@ Failed(g, req, r) ==
     \cup (IF FeesPaid(g, r) THEN {}
           ELSE IF FeesPaidButForLastHopRaise(g, req, r) THEN {"FeesPaid_LastHopRaiseNotCharged"}
           ELSE {"FeesPaid"})
-    \cup (IF FeesPaid(g, r) /\ ~HtlcMaxAndCapacity(g, req, r) THEN {"HtlcMaxAndCapacity"} ELSE {})
+    \cup (IF FeesPaid(g, r) /\ ~HtlcMaxAndCapacity(g, req, r)
+          THEN (IF HtlcMaxButForOvershootingRaise(g, req, r)
+                THEN {"HtlcMaxAndCapacity_LastHopRaiseNotCharged"} ELSE {"HtlcMaxAndCapacity"})
+          ELSE {})
     \cup (IF CltvDeltas(g, req, r) THEN {} ELSE {"CltvDeltas"})
     \cup (IF DeliversEnough(req, r) THEN {} ELSE {"DeliversEnough"})
     \cup (IF NoSuperfluousPart(req, r) THEN {} ELSE {"NoSuperfluousPart"})
